@@ -67,6 +67,8 @@ pub(super) fn start_background_workers(fsync_schedule: FsyncSchedule) -> Arc<mps
             // Phase 2: Open/map files if needed
             for path in unique.iter() {
                 // Skip if file doesn't exist
+                #[cfg(walrus_verif)]
+                let _ = crate::wal::verif::io_check(crate::wal::verif::IoKind::Exists, path, "", 0, 0);
                 if !Path::new(&path).exists() {
                     debug_print!("[flush] file does not exist, skipping: {}", path);
                     continue;
@@ -105,6 +107,8 @@ pub(super) fn start_background_workers(fsync_schedule: FsyncSchedule) -> Arc<mps
 
                         // Push all fsync operations to submission queue
                         for (i, (raw_fd, _path)) in fsync_batch.iter().enumerate() {
+                            #[cfg(walrus_verif)]
+                            let _ = crate::wal::verif::io_check(crate::wal::verif::IoKind::Flush, _path, "BG", 0, 0);
                             let fd = io_uring::types::Fd(*raw_fd);
 
                             let fsync_op =
@@ -154,6 +158,8 @@ pub(super) fn start_background_workers(fsync_schedule: FsyncSchedule) -> Arc<mps
                 } else {
                     for path in unique.iter() {
                         if let Some(storage) = pool.get_mut(path) {
+                            #[cfg(walrus_verif)]
+                            let _ = crate::wal::verif::io_check(crate::wal::verif::IoKind::Flush, path, "BG", 0, 0);
                             if let Err(e) = storage.flush() {
                                 debug_print!("[flush] flush error for {}: {}", path, e);
                             }
@@ -192,6 +198,8 @@ pub(super) fn start_background_workers(fsync_schedule: FsyncSchedule) -> Arc<mps
 
                     // Perform batched deletions now that mmaps/fds are dropped
                     for path in delete_pending.drain() {
+                        #[cfg(walrus_verif)]
+                        let _ = crate::wal::verif::io_check(crate::wal::verif::IoKind::Remove, &path, "", 0, 0);
                         match fs::remove_file(&path) {
                             Ok(_) => debug_print!("[reclaim] deleted file {}", path),
                             Err(e) => {
